@@ -11,8 +11,11 @@ expressions symbolically over a small typed object language:
   kinds   S (scalar), V3, M3, V6, M6, Row/Col (of a vector), Obj (a position object: a Lean `PosObj` — Cartesian
           coordinates `.trs`, velocity `.vel`, geodetic `.lat`/`.lon`), Delta (the argument of a `delta_*` function)
   Obj     carries the *view* it is seen in (`own` system, `trs`, `llh`) and the part (`pos`/`vel`): `.trs`, `.pos`,
-          `.vel`, `.llh`, `.to_system(X.system)` change view/part, `.val` is only defined on a `trs` view (→ `.trs`/`.vel`)
-          and `lat, lon, _ = <Obj>.llh.val.T` gives `.lat`, `.lon`; `self.other` is the second parameter `other`
+          `.vel`, `.llh`, `.to_system(X.system)` change view/part, `.val` is defined on a `trs` view (→ `.trs`/`.vel`) and
+          on an `llh` view (→ `PosObj.llhVal`: lat, lon, height), `lat, lon, _ = <Obj>.llh.val.T` gives `.lat`, `.lon`;
+          `self.other` is the second parameter `other`.  `vector_to/distance_to/direction_to` and `vector/distance/
+          direction` work in the observer's *own* system: they are translated once per registered position system
+          (`…Src` for an observer given in trs, `…LlhSrc` for one given in llh)
   calls   rotation.enu2trs/trs2enu, nputil.take(M, k) (column k), nputil.row(a) @ nputil.col(b) (dot product),
           nputil.norm, nputil.unit_vector, nputil.col(scalar) under `/`, np.cross, np.stack((a, b, c), axis=-2) (rows),
           np.squeeze, np.arctan2, np.arcsin, np.pi, np.zeros(M.shape), np.block([[A, B], [C, D]]), `M @ col`,
@@ -58,19 +61,20 @@ FRAMES: Dict[str, dict] = {
     "enu_east": dict(cls="PositionArray", lean="enuEastSrc", kind="V3"),
     "enu_north": dict(cls="PositionArray", lean="enuNorthSrc", kind="V3"),
     "enu_up": dict(cls="PositionArray", lean="enuUpSrc", kind="V3"),
-    "vector_to": dict(cls="PositionArray", lean="vectorToSrc", kind="V3", arg=True, view="trs"),
-    "distance_to": dict(cls="PositionArray", lean="distanceToSrc", kind="S", arg=True, view="trs"),
-    "direction_to": dict(cls="PositionArray", lean="directionToSrc", kind="V3", arg=True, view="trs"),
+    "vector_to": dict(cls="PositionArray", lean="vectorToSrc", kind="V3", arg=True, views=("trs", "llh")),
+    "distance_to": dict(cls="PositionArray", lean="distanceToSrc", kind="S", arg=True, views=("trs", "llh")),
+    "direction_to": dict(cls="PositionArray", lean="directionToSrc", kind="V3", arg=True, views=("trs", "llh")),
     "azimuth_to": dict(cls="PositionArray", lean="azimuthToSrc", kind="S", arg=True),
     "elevation_to": dict(cls="PositionArray", lean="elevationToSrc", kind="S", arg=True),
     "zenith_distance_to": dict(cls="PositionArray", lean="zenithDistanceToSrc", kind="S", arg=True),
     "azimuth": dict(cls="PositionArray", lean="azimuthSrc", kind="S", form="cached", other=True),
     "elevation": dict(cls="PositionArray", lean="elevationSrc", kind="S", form="cached", other=True),
     "zenith_distance": dict(cls="PositionArray", lean="zenithDistanceSrc", kind="S", form="cached", other=True),
-    # the three below are differences in the *own* system of the observer; translated for an observer given in TRS
-    "vector": dict(cls="PositionArray", lean="vectorSrc", kind="V3", other=True, view="trs"),
-    "distance": dict(cls="PositionArray", lean="distanceSrc", kind="S", form="cached", other=True, view="trs"),
-    "direction": dict(cls="PositionArray", lean="directionSrc", kind="V3", form="cached", other=True, view="trs"),
+    # the three below (and the *_to methods they call) are differences of the coordinates in the *own* system of the
+    # observer: one definition per registered position system (trs: Cartesian; llh: `…LlhSrc`, geodetic coordinates)
+    "vector": dict(cls="PositionArray", lean="vectorSrc", kind="V3", other=True, views=("trs", "llh")),
+    "distance": dict(cls="PositionArray", lean="distanceSrc", kind="S", form="cached", other=True, views=("trs", "llh")),
+    "direction": dict(cls="PositionArray", lean="directionSrc", kind="V3", form="cached", other=True, views=("trs", "llh")),
     "trs2acr": dict(cls="PosVelArray", lean="trs2acrSrc", kind="M3", form="cached"),
     "acr2trs": dict(cls="PosVelArray", lean="acr2trsSrc", kind="M3", form="cached"),
     "unit_vector": dict(cls="PosBase", inline=True),
@@ -84,6 +88,11 @@ DELTAS = [  # function of transformation.py, Lean name, the parameter, vector ki
     ("delta_trs2enu_posvel", "deltaTrs2EnuPosVelSrc", "trs", "V6"), ("delta_enu2trs_posvel", "deltaEnu2TrsPosVelSrc", "enu", "V6"),
     ("delta_trs2acr_posvel", "deltaTrs2AcrPosVelSrc", "trs", "V6"), ("delta_acr2trs_posvel", "deltaAcr2TrsPosVelSrc", "acr", "V6"),
 ]
+
+
+def lean_name(spec: dict, view: str) -> str:
+    """`vectorToSrc` for an observer seen in trs, `vectorToLlhSrc` for one seen in llh"""
+    return spec["lean"] if view in ("own", "trs") else spec["lean"][:-3] + view.capitalize() + "Src"
 
 
 class Ev:
@@ -104,7 +113,7 @@ class Ev:
             if sub.lets:
                 self.fail(e, "inlined property with local bindings")
             return val
-        want = spec.get("view", "own")
+        want = recv.view if recv.view in spec.get("views", ()) else spec.get("view", "own" if "views" not in spec else "one of " + "/".join(spec["views"]))
         if recv.kind != "Obj" or recv.view != want or recv.part not in ("", "pos"):
             self.fail(e, f"`{name}` is translated for a receiver seen in its {want} system, here it is seen in {recv.view or '?'}{'/' + recv.part if recv.part else ''}")
         args = [recv.lean]
@@ -118,7 +127,7 @@ class Ev:
             if recv.lean != "self":
                 self.fail(e, f"`{name}` of an object whose `other` is not known")
             args.append(self.other.lean)
-        return T("(" + " ".join([spec["lean"]] + args) + ")", spec["kind"])
+        return T("(" + " ".join([lean_name(spec, want)] + args) + ")", spec["kind"])
 
     # ------------------------------------------------------------------ expressions
     def attr(self, base: T, a: str, e) -> T:
@@ -191,6 +200,8 @@ class Ev:
                     return T("", "Col", of=T(f"(M6.mulVec {a.lean} {b.of.lean})", "V6"))
                 self.fail(e, f"matrix product of {a.kind} and {b.kind}")
             if isinstance(e.op, ast.Sub):
+                if a.kind == b.kind == "LLHval":      # coordinates in the llh system: (lat, lon, height)
+                    return T(f"(V3.sub (PosObj.llhVal {a.lean}) (PosObj.llhVal {b.lean}))", "V3")
                 if a.kind == b.kind == "V3":
                     return T(f"(V3.sub {a.lean} {b.lean})", "V3")
                 if a.kind == b.kind == "S":
@@ -360,10 +371,10 @@ class Ev:
 KIND = {"S": "α", "V3": "V3 α", "M3": "M3 α", "V6": "V6 α", "M6": "M6 α"}
 
 
-def translate_frame(tree: ast.Module, name: str) -> str:
+def translate_frame(tree: ast.Module, name: str, view: Optional[str] = None) -> str:
     spec = FRAMES[name]
     fn = find_function(tree, spec["cls"] + "." + name)
-    view = spec.get("view", "own")
+    view = view or spec.get("view", "own")
     env = {"self": T("self", "Obj", view=view)}
     other = None
     params = "(self : PosObj α)"
@@ -381,7 +392,7 @@ def translate_frame(tree: ast.Module, name: str) -> str:
         raise Untranslatable(f"{POSF}:{name}: the result is a {val.kind}, expected {spec['kind']}")
     seen = "" if view == "own" else f" (receiver{' and argument' if spec.get('arg') else ''} given in {view})"
     doc = f"/-- `{POSF}` `{spec['cls']}.{name}`{seen}" + ("; `other` is `self.other`" if spec.get("other") else "") + " -/"
-    return "\n".join([doc, f"def {spec['lean']} {params} : {KIND[spec['kind']]} :="] + ev.lets + ["  " + val.lean])
+    return "\n".join([doc, f"def {lean_name(spec, view)} {params} : {KIND[spec['kind']]} :="] + ev.lets + ["  " + val.lean])
 
 
 def translate_delta(tree_pos: ast.Module, tree_trf: ast.Module, func: str, lean: str, param: str, kind: str) -> str:
@@ -420,13 +431,14 @@ def generate() -> Tuple[bool, dict]:
         tree_pos = tree_trf = None
         failed.append(f"source not readable: {ex}")
     if tree_pos is not None:
-        for name in ORDER:
+        for name, view in [(n, v) for n in ORDER for v in FRAMES[n].get("views", (None,))]:
+            lean = lean_name(FRAMES[name], view or "own")
             try:
-                defs.append(translate_frame(tree_pos, name))
-                done.append(FRAMES[name]["lean"])
+                defs.append(translate_frame(tree_pos, name, view))
+                done.append(lean)
             except Untranslatable as ex:
-                failed.append(f"{FRAMES[name]['lean']}: {ex}")
-                defs.append(f"-- NOT TRANSLATED `{FRAMES[name]['lean']}`: {str(ex)[:300]}")
+                failed.append(f"{lean}: {ex}")
+                defs.append(f"-- NOT TRANSLATED `{lean}`: {str(ex)[:300]}")
         for func, lean, param, kind in DELTAS:
             try:
                 defs.append(translate_delta(tree_pos, tree_trf, func, lean, param, kind))
